@@ -37,7 +37,7 @@ def run(ctx):
                 ws.append(dict(kind="wl", wl=wl, maxTrials=0, failRateOne=0, mode="paths", paths=4, maxLeaves=0, tag="long-paths", reps=0))
     wfiles, wcells, wleaves = wlfam.run_scenarios(ctx, ws, "c06w")
     wverd, wdec = wlfam.validate(ctx, wfiles)
-    too_few = cdec < max(5, ccells // 4) or wdec < max(5, wcells // 5)
+    too_few = cdec < max(5, ccells // 10) or wdec < max(5, wcells // 10)
     ctx.evaluations = cleaves + wleaves
     ctx.nontrivial = cdec + wdec
     ctx.cover.update(char_cells=ccells, char_leaves=cleaves, char_cells_decided=cdec, wl_cells=wcells, wl_leaves=wleaves, wl_cells_decided=wdec)
